@@ -252,7 +252,7 @@ def o3(W, ob):
         ob.fail('builder|open-panic-site|%s|%s|%s' % k, 'open panic-capable site reachable from the SessionBuilder: %s in %s (%s) -- %s' % (k[1], k[0], k[2], why[:200]), panics.where_(s))
 
 
-from . import helpers, wiring
+from . import helpers, wiring, confpanics
 
 OBLIGATIONS = [
     ('C16.O1', 'documented constraint <-> guard', 'fps != 0; 1 <= max_frames_behind < SPECTATOR_BUFFER_SIZE; catchup_speed >= 1; num_players != 0 with revalidation against the new value; '
@@ -262,6 +262,7 @@ OBLIGATIONS = [
     ('C16.O2', 'runtime misuse leaves the session unchanged', 'no error exit of the P2PSession API functions is reachable after an effect on the session; the documented error cases exist.', o2),
     ('C16.O2b', 'set_input_delay guards (= C11.O3)', 'see C11.O3', c11.o3),
     ('C16.O3', 'the builder cannot panic', 'panic-capable sites in the call-graph closure of the SessionBuilder methods are discharged by analysis or reviewed for arguments in the claimed range.', o3),
+    ('C16.O4', 'no configuration-determined panic in a running session', 'every division / remainder in the crate has a divisor shown non-zero (constant, guard, fixed array, or a configuration invariant the builder establishes); every panicking Duration/Instant subtraction is ordered by a dominating comparison; every overflow-checked unsigned subtraction over configuration values only is guarded. Configuration fields are computed (never written after construction); see rules/confpanics.py', confpanics.rule),
     ('C16.H', 'helpers the rules above rely on', 'the bodies of the helpers named by this property\'s rules compute what the rules assume (get_cell, registry_counts); see rules/helpers.py', helpers.bundle('get_cell', 'registry_counts')),
     ('C16.W', 'configuration wiring', 'at every call site that passes a field read `x.B` for a parameter `A` the callee has no same-typed parameter `B`; in every struct literal no parameter `B` is stored in field `A` while a same-typed parameter `A` / field `B` exists (builder -> constructor -> endpoint fields: timeouts, window, fps are not crossed); see rules/wiring.py', wiring.rule),
 ]
